@@ -46,12 +46,19 @@ class BaseCurve(Intface_BaseCurve):
             return False
         if (self.ctrlpoints is None) ^ (other.ctrlpoints is None):
             return False
+        if self.ctrlpoints is None:
+            return self.knotvector == other.knotvector
+        if self.weights is not None or other.weights is not None:
+            numa, dena = self.fraction()
+            numb, denb = other.fraction()
+            diff = numa * denb - numb * dena
+            return all(norm(point) <= 1e-9 for point in diff.ctrlpoints)
         newknotvec = self.knotvector | other.knotvector
         selfcopy = copy(self)
         selfcopy.knotvector = newknotvec
         othercopy = copy(other)
         othercopy.knotvector = newknotvec
-        for poi, qoi in zip(self.ctrlpoints, othercopy.ctrlpoints):
+        for poi, qoi in zip(selfcopy.ctrlpoints, othercopy.ctrlpoints):
             if norm(poi - qoi) > 1e-9:
                 return False
         return True
